@@ -2,7 +2,7 @@
 use crate::ber::{self, Enc, Node};
 use crate::conv::from_lber;
 use crate::lanes::c03::expect_ctrls;
-use crate::msg::{resp_node, Res, Resp, RespCtl};
+use crate::msg::{resp_node, Req, Res, Resp, RespCtl};
 use crate::prng::{fnv, Rng};
 use crate::report::{case_rng, guarded, par_cases, Ctx, Report};
 use crate::world::{self, connect, ctls_out, item_out, runtime, settle};
@@ -170,6 +170,12 @@ fn cuts_for(p: &Partition, total: usize, rng: &mut Rng) -> Vec<usize> {
 /// quiescence barrier and compare the number of items the client holds with the number of
 /// messages completely sent.
 fn deliver(msgs: &[Vec<u8>], expect: &[String], part: &Partition, rng: &mut Rng, rep: &mut Report, replay: &Value, sig_extra: &str) -> bool {
+    deliver_opt(msgs, expect, part, rng, rep, replay, sig_extra, false)
+}
+
+/// `busy`: while the stream's bytes arrive, a second handle keeps issuing operations (answered at once),
+/// so that the driver's other ready events compete with the incoming frames.
+fn deliver_opt(msgs: &[Vec<u8>], expect: &[String], part: &Partition, rng: &mut Rng, rep: &mut Report, replay: &Value, sig_extra: &str, busy: bool) -> bool {
     // messages addressed to nobody (ID 0 / unknown ID) are recognised by their marker bytes
     let is_item: Vec<bool> = msgs.iter().map(|m| !contains(m, b"NOBODY")).collect();
     let total: usize = msgs.iter().map(|m| m.len()).sum();
@@ -183,6 +189,14 @@ fn deliver(msgs: &[Vec<u8>], expect: &[String], part: &Partition, rng: &mut Rng,
     }
     let cuts = cuts_for(part, total, rng);
     let all: Vec<u8> = msgs.concat();
+    // offsets at which one message ends and the next begins: only there may other traffic be inserted
+    let mut boundaries: std::collections::HashSet<usize> = std::collections::HashSet::new();
+    boundaries.insert(0);
+    let mut bacc = 0;
+    for m in msgs.iter() {
+        bacc += m.len();
+        boundaries.insert(bacc);
+    }
     let rt = runtime(rng.next());
     let expect_v = expect.to_vec();
     let ends_in = ends.clone();
@@ -194,6 +208,27 @@ fn deliver(msgs: &[Vec<u8>], expect: &[String], part: &Partition, rng: &mut Rng,
         let mut server = c.server;
         let got: Arc<Mutex<Vec<String>>> = Arc::new(Mutex::new(vec![]));
         let got2 = got.clone();
+        let stop = Arc::new(std::sync::atomic::AtomicBool::new(false));
+        let go = Arc::new(tokio::sync::Notify::new());
+        let busy_task = if busy {
+            let mut lb = ldap.clone();
+            let stop2 = stop.clone();
+            let go2 = go.clone();
+            Some(tokio::spawn(async move {
+                // the search goes first: the scripted messages are encoded for message ID 1
+                go2.notified().await;
+                let mut n = 0u64;
+                while !stop2.load(std::sync::atomic::Ordering::SeqCst) {
+                    match world::watchdog(lb.delete(&format!("op=busy{}", n))).await {
+                        Ok(Ok(_)) => n += 1,
+                        _ => break,
+                    }
+                }
+                n
+            }))
+        } else {
+            None
+        };
         let client = tokio::spawn(async move {
             let mut st = match ldap.streaming_search("op=1", Scope::Subtree, "(a=b)", vec!["*"]).await {
                 Ok(s) => s,
@@ -209,13 +244,36 @@ fn deliver(msgs: &[Vec<u8>], expect: &[String], part: &Partition, rng: &mut Rng,
             let r = st.finish().await;
             format!("rc={} text={}", r.rc, r.text)
         });
-        // wait for the search request
-        let _ = server.request().await;
+        // wait for the search request (the second handle's operations may come first)
+        loop {
+            match server.request().await {
+                Some(w) => match &w.msg {
+                    Ok(m) if matches!(m.op, Req::Search { .. }) => break,
+                    Ok(m) => {
+                        if let Some(r) = crate::msg::reply_for(&m.op, Res::ok("busy")) {
+                            server.send(&ber::encode_min(&resp_node(m.id, &r, None)));
+                        }
+                    }
+                    Err(_) => break,
+                },
+                None => break,
+            }
+        }
+        go.notify_one();
+        settle().await;
         let mut timeline: Vec<(usize, usize)> = vec![]; // (bytes sent, items held) at barriers
         let mut off = 0;
         let mut points = cuts.clone();
         points.push(all.len());
         for (bi, &p) in points.iter().enumerate() {
+            // answers for the second handle's operations travel with the stream's bytes (between messages)
+            while let Some(w) = if boundaries.contains(&off) { server.try_request() } else { None } {
+                if let Ok(m) = &w.msg {
+                    if let Some(r) = crate::msg::reply_for(&m.op, Res::ok("busy")) {
+                        server.send(&ber::encode_min(&resp_node(m.id, &r, None)));
+                    }
+                }
+            }
             server.send(&all[off..p]);
             off = p;
             if bi % check_every == 0 || bi + 1 == points.len() || ends_in.contains(&p) || ends_in.contains(&(p + 1)) {
@@ -232,6 +290,26 @@ fn deliver(msgs: &[Vec<u8>], expect: &[String], part: &Partition, rng: &mut Rng,
                 "HUNG".into()
             }
         };
+        stop.store(true, std::sync::atomic::Ordering::SeqCst);
+        if let Some(b) = busy_task {
+            // let its last operation finish
+            while let Some(w) = server.try_request() {
+                if let Ok(m) = &w.msg {
+                    if let Some(r) = crate::msg::reply_for(&m.op, Res::ok("busy")) {
+                        server.send(&ber::encode_min(&resp_node(m.id, &r, None)));
+                    }
+                }
+            }
+            settle().await;
+            while let Some(w) = server.try_request() {
+                if let Ok(m) = &w.msg {
+                    if let Some(r) = crate::msg::reply_for(&m.op, Res::ok("busy")) {
+                        server.send(&ber::encode_min(&resp_node(m.id, &r, None)));
+                    }
+                }
+            }
+            b.abort();
+        }
         server.eof();
         let _ = world::watchdog(c.driver).await;
         let f = got.lock().unwrap().clone();
@@ -324,9 +402,13 @@ pub fn partitions(ctx: &Ctx) -> Report {
         if total <= if ctx.tiny { 300 } else { 6000 } {
             parts.push(Partition::Bytewise);
         }
+        let busy = i % 3 == 2;
         for p in &parts {
-            deliver(&msgs, &expect, p, rng, rep, &replay, "");
+            deliver_opt(&msgs, &expect, p, rng, rep, &replay, if busy { ":busy-connection" } else { "" }, busy);
             rep.distinct("partitions", fnv(format!("{:?}{}", p, i).as_bytes()));
+        }
+        if busy {
+            rep.count("sequences_delivered_while_another_handle_is_busy", 1);
         }
         if i < 2 {
             rep.sample(json!({"lane":"partitions","case":i,"messages":msgs.len(),"total_bytes":total,"sizes":msgs.iter().map(|m| m.len()).take(12).collect::<Vec<_>>(),"partitions":parts.iter().map(short).collect::<Vec<_>>()}));
